@@ -83,3 +83,21 @@ for _s, _file, _fn, _extra in (("latex", "latex.c", "__CPROVER_file_local_latex_
       bounds={"value length<=": 3, "bytes": "full domain", "unwind": 8}, functions=[_fn.split("_c_")[-1] + " (static, " + _file + ")", "my_strdup (static)"],
       callees={"tolower": "contract stub: C locale mapping, requires an argument in its domain", "strlen/strcpy/strstr/strcat": "byte-loop models / CBMC built-in"},
       min_obligations=10, timeout=300, cost=5, assumptions=[NOFAIL])
+
+# ---- get_fence_language_specifier: both scans by loop contract, source of symbolic size; the copied range is the
+# ---- call-site precondition of my_strndup
+_GK = "g_src[g_k]"
+_FENCE_LOOPS = {"get_fence_language_specifier": [
+    {"loop_id": 0, "vars": ["fence", "source", "start", "len"],
+     "invariants": "source == g_src && len == 0 && g_end <= start && start <= g_z && (!(g_end <= g_k && g_k < start) || " + _GK + " == ' ' || " + _GK + " == '\\t')",
+     "assigns": "start", "decreases": "g_z - start"},
+    {"loop_id": 1, "vars": ["fence", "source", "start", "len"],
+     "invariants": "source == g_src && start <= g_z && len <= g_z - start && (!(start <= g_k && g_k < start + len) || !(" + _GK + " == ' ' || " + _GK + " == '\\t' || " + _GK + " == '\\n' || " + _GK + " == '\\r' || " + _GK + " == 0))",
+     "assigns": "len", "decreases": "g_z - start - len"},
+]}
+U("c01_fence_language", ["C01", "C16"], "h_fence_lang", ["C01/fence_lang.c"], ["writer.c"], enforce="get_fence_language_specifier", loops=_FENCE_LOOPS,
+  replace=["char_is_whitespace", "char_is_whitespace_or_line_ending", "__CPROVER_file_local_writer_c_my_strndup"], lib=(), small=["-DSRC_SMALL", "-DSRC_MAX=6"], min_obligations=20,
+  native=None,
+  callees={"char_is_whitespace/char_is_whitespace_or_line_ending": "contracts (proved for all 256 bytes: unit char_classes)",
+           "my_strndup": "contract: its precondition states exactly which range may be copied (body: bounded unit c01_my_strndup)"},
+  assumptions=["source shorter than 2^40 bytes, NUL-terminated (every caller passes the engine's DString text)", "the fence token's span lies inside the source (C15)"])
